@@ -236,8 +236,12 @@ impl<'a, D: DependencyProvider> Encoder<'a, D> {
             })
         {
             // If the dependencies are already available for the
-            // candidate, queue the candidate for processing.
-            if self.cache.are_dependencies_available_for(candidate) {
+            // candidate, queue the candidate for processing. A candidate that
+            // is currently assigned false cannot be a parent of new clauses;
+            // it is encoded later if it ever becomes part of the solution.
+            if self.cache.are_dependencies_available_for(candidate)
+                && self.state.decision_tracker.assigned_value(candidate_var) != Some(false)
+            {
                 self.queue_solvable(candidate.into())
             }
 
